@@ -457,7 +457,8 @@ theorem msg_opened {s : Sys} (h : FInv accts groups s) {y : Acct} {id : Nat} {pe
     (hq : queueOf s.outbound y = .msg id peer part im encs pl :: rest)
     (hlive : dead (getClient s y) (.msg id peer part im encs pl) = false) :
     dead (heC (getClient s y) id peer part im encs pl).1 (.msg id peer part im encs pl) = true ∧
-    1 ≤ shownC (heC (getClient s y) id peer part im encs pl).1 id := by
+    1 ≤ shownC (heC (getClient s y) id peer part im encs pl).1 id ∧
+    (heC (getClient s y) id peer part im encs pl).2 = [.receipt id peer part .delivery] := by
   have hmem : Stanza.msg id peer part im encs pl ∈ queueOf s.outbound y := by rw [hq]; simp
   have hdd := h.dv.down y _ hmem
   obtain ⟨hy, hxy, hgrp⟩ := down_origin h hmem
@@ -483,7 +484,7 @@ theorem msg_opened {s : Sys} (h : FInv accts groups s) {y : Acct} {id : Nat} {pe
       have hunc := (hdd.2 (none, ct) (by simp)).1.uncorrupt
       obtain ⟨se', hd1, _⟩ := decrypt_ok_full hk hunc (f2 hunc hlive) f1
       rw [heC_A_ok hk hd1 hp]
-      exact shownC_reset_push _ id peer part p
+      exact ⟨shownC_reset_push _ id peer part p, rfl⟩
   · cases peer with
     | user b => cases hg
     | group g =>
@@ -504,7 +505,7 @@ theorem msg_opened {s : Sys} (h : FInv accts groups s) {y : Acct} {id : Nat} {pe
           have hd2 := groupDecrypt_ok_full hpk hctk.uncorrupt hkn
           have e := heC_B0_ok (id := id) (im := im) (pl := pl) hk hd2 hp
           rw [List.nil_append, e]
-          refine ⟨?_, shownC_reset_push _ id (.group g) part p⟩
+          refine ⟨?_, shownC_reset_push _ id (.group g) part p, rfl⟩
           have hf0 : heFirst [((none : Option Acct), k)] = none := by
             unfold heFirst; rw [firstKind_single, firstKind_single]; simp [hk]
           have hf1 : firstKind [((none : Option Acct), k)] .skmsg = some k := by rw [firstKind_single]; simp [hk]
@@ -538,7 +539,7 @@ theorem msg_opened {s : Sys} (h : FInv accts groups s) {y : Acct} {id : Nat} {pe
                 (whoOf (.group g) part) e0.2.plain).seenSK := by rw [hsk2, hsk1]; exact hkn
             have hd2 := groupDecrypt_ok_full hpk hctk.uncorrupt hkn'
             rw [heC_B1_ok (id := id) (im := im) (pl := pl) hl' hk hf hd1' hcn hd2 hp]
-            exact shownC_reset_push _ id (.group g) part p
+            exact ⟨shownC_reset_push _ id (.group g) part p, rfl⟩
 
 end
 
